@@ -17,10 +17,14 @@ package server
 //@   requires #no_plain_pubsub: !("pubsub" in m.handlers)
 
 //@ func (h Handler) ServeRESP(conn redcon.Conn, cmd redcon.Command)
-//@   props C16
+//@   props C16 C05
 //@   flag termination
 //@   flag skip nil
 //@   requires #pubsub_has_sub: len(cmd.Args) >= 2 || len(cmd.Args) == 0 || (string(cmd.Args[0]) != "pubsub" && string(cmd.Args[0]) != "PUBSUB")
+//@   ensures #malformed_passes_through [C05]: len(cmd.Args) == 0 ==> handled == old(handled) + 1
+//@   ensures #gated [C05] internal: handled == old(handled) + ite(command == protocol.Internal.UpdateRouting || h.precond == nil || precond_ok, 1, 0)
+//@   ensures #refused_applies_nothing [C05] internal: command != protocol.Internal.UpdateRouting && h.precond != nil && !precond_ok ==> handled == old(handled)
+//@   modifies handled, precond_ok, CommandsTotal.counter
 
 // The connection pool hands out a client per address (created on demand); nothing else is visible.
 //@ func (c *Client) Get(addr string) *redis.Client
@@ -28,3 +32,22 @@ package server
 //@   trusted
 //@   ensures #nonnil: result != nil
 //@   modifies nothing
+
+// ---------------------------------------------------------------------------------------------------
+// C05: requests arriving over the network are gated by the precondition function. The registered handler and
+// the precondition are function values; they carry assumed abstract contracts (flag funcfield): a handler call
+// bumps the ghost counter `handled`, the precondition leaves its verdict in the ghost `precond_ok`.
+//@ ghost var handled int
+//@ ghost var precond_ok bool
+
+//@ func (h Handler) handler(conn redcon.Conn, cmd redcon.Command)
+//@   props C05
+//@   flag funcfield
+//@   ensures #invoked: handled == old(handled) + 1
+//@   modifies handled
+
+//@ func (h Handler) precond(conn redcon.Conn, cmd redcon.Command) bool
+//@   props C05
+//@   flag funcfield
+//@   ensures #verdict: result == precond_ok && handled == old(handled)
+//@   modifies precond_ok
